@@ -1,0 +1,33 @@
+// Verification seam. Compiled only with `--cfg edp_verif`.
+//
+// dashmap's default hasher is randomly keyed and its shard count follows the
+// CPU count, so iteration order differs from run to run and machine to machine.
+// Under the guard the node's tables use a fixed shard count and the
+// simulator-salted hasher from edp_client::verif.
+
+use edp_client::verif::DetState;
+use std::ops::Deref;
+
+pub struct DetDashMap<K, V>(dashmap::DashMap<K, V, DetState>);
+
+impl<K: Eq + std::hash::Hash, V> DetDashMap<K, V> {
+    pub fn new() -> Self {
+        DetDashMap(dashmap::DashMap::with_hasher_and_shard_amount(
+            DetState::new(),
+            4,
+        ))
+    }
+}
+
+impl<K: Eq + std::hash::Hash, V> Default for DetDashMap<K, V> {
+    fn default() -> Self {
+        Self::new()
+    }
+}
+
+impl<K, V> Deref for DetDashMap<K, V> {
+    type Target = dashmap::DashMap<K, V, DetState>;
+    fn deref(&self) -> &Self::Target {
+        &self.0
+    }
+}
